@@ -23,6 +23,7 @@ pub enum Case {
     Text(String),
     Fixture(usize),
     Hist(History),
+    Prog(crate::props::c04::Case),
 }
 
 fn render<E: Diagnostic + Send + Sync + 'static>(e: E, src: &str) -> String {
@@ -101,6 +102,10 @@ pub fn observe(c: &Case) -> String {
             observe_text(&f.text, &f.packages)
         }
         Case::Hist(h) => crate::props::c06::observe_history(h),
+        Case::Prog(p) => {
+            let (text, pkgs) = crate::props::c04::document_and_packages(p);
+            observe_text(&text, &pkgs)
+        }
     }
 }
 
@@ -159,6 +164,7 @@ fn nontrivial(c: &Case) -> bool {
         Case::Text(_) => true,
         Case::Fixture(_) => true,
         Case::Hist(h) => h.ops.len() >= 4,
+        Case::Prog(p) => p.choices.len() >= 10,
     }
 }
 
@@ -169,6 +175,7 @@ fn label(c: &Case) -> &'static str {
         Case::Text(_) => "handwritten-document",
         Case::Fixture(_) => "repo-fixture",
         Case::Hist(_) => "api-history-with-type-definitions",
+        Case::Prog(_) => "semantic-program",
     }
 }
 
@@ -179,7 +186,7 @@ pub fn run(tier: Tier, seed: u64, replay: Option<&std::path::Path>) -> i32 {
         tier,
         seed,
         "exploration",
-        "cases: graph histories over generated libraries (C01 generator), API histories on the tiny universe that define base types after their dependants (C06 generator), grammar-generated documents, every repository fixture with its packages, and hand-written documents with several unknown `include ... with` names / many same-rank imports. Each case is observed (Debug of the graph, encode bytes in both dependency modes, serialised tree, printed text, discovered keys, rendered diagnostics) twice in one process and on a clone, and in K fresh worker processes (K=4 quick, 12 thorough; each has its own hash seeds); all SHA-256 digests must be equal. Non-trivial = histories with >= 3 ops, documents with >= 2 statements, fixtures, hand-written cases. Distinct by JSON hash.",
+        "cases: graph histories over generated libraries (C01 generator), API histories on the tiny universe that define base types after their dependants (C06 generator), grammar-generated documents, programs of C04's semantic generator with their generated libraries (resolvable documents with spreads, implicit imports, nested instantiations), every repository fixture with its packages, and hand-written documents with several unknown `include ... with` names / many same-rank imports. Each case is observed (Debug of the graph, encode bytes in both dependency modes, serialised tree, printed text, discovered keys, rendered diagnostics) twice in one process and on a clone, and in K fresh worker processes (K=4 quick, 12 thorough; each has its own hash seeds); all SHA-256 digests must be equal. Non-trivial = histories with >= 3 ops, documents with >= 2 statements, fixtures, hand-written cases. Distinct by JSON hash.",
     );
     run.assume("a sample of per-process hash seeds, not all of them");
     if let Some(p) = replay {
@@ -222,6 +229,12 @@ pub fn run(tier: Tier, seed: u64, replay: Option<&std::path::Path>) -> i32 {
     for _ in 0..tier.pick(2000, 30_000) {
         if let Ok(t) = hs.new_tree(&mut runner) {
             cases.push(Case::Hist(t.current()));
+        }
+    }
+    let ps = crate::props::c04::case_strategy();
+    for _ in 0..tier.pick(3000, 40_000) {
+        if let Ok(t) = ps.new_tree(&mut runner) {
+            cases.push(Case::Prog(t.current()));
         }
     }
     let outs = run_workers(&cases, k);
